@@ -583,7 +583,25 @@ excluded_signature(const std::string& reg, const std::string& name_std, const st
 {
   if (c17::no_exclude())
     return "";
-  if (reg == "BinNormalisation" && name_std == "chained")
+  //  F2: BinNormalisationFromECAT8::read_norm_data ignores the result of InterfileNormHeaderSiemens::parse and
+  //      dereferences the null data_info_ptr when the norm file cannot be opened/parsed (always the case here)
+  if (reg == "BinNormalisation" && name_std == "from ecat8")
+    return "C17:registry:BinNormalisation/From ECAT8:unreadable norm file";
+  for (const std::string& l : c17::split_lines(text)) // the same type nested in another object
+    {
+      const auto p = l.find(":=");
+      if (p != std::string::npos && c17::ref_standardise(l.substr(p + 2)) == "from ecat8")
+        return "C17:registry:BinNormalisation/From ECAT8:unreadable norm file";
+    }
+  bool nested_chained = false;
+  for (const std::string& l : c17::split_lines(text))
+    {
+      const auto p = l.find(":=");
+      if (p != std::string::npos && c17::ref_standardise(l.substr(p + 2)) == "chained"
+          && c17::ref_standardise(l.substr(0, p)).find("normalisation") != std::string::npos)
+        nested_chained = true;
+    }
+  if ((reg == "BinNormalisation" && name_std == "chained") || nested_chained)
     {
       // both nested keys must name a type for the defect not to trigger
       int named = 0;
@@ -616,7 +634,13 @@ gen(Src& s, int size)
     edits.push_back({ int(s.range(0, 199)), int(s.range(0, 19)), int(s.range(0, 11)) });
   c["edits"] = edits;
   // optional: give one "<something> := None" parsing key a registered type with that type's default block
-  c["nest"] = s.chance(1, 3) ? json::array({ int(s.range(0, 31)), int(s.range(0, 63)) }) : json::array();
+  json nest = json::array();
+  const int nn = s.chance(1, 2) ? int(s.range(1, 3)) : 0;
+  for (int i = 0; i < nn; ++i)
+    nest.push_back({ int(s.range(0, 31)), int(s.range(0, 63)) });
+  c["nest"] = nest;
+  // "fill": every numeric 0 becomes 1 first (many defaults are deliberately invalid: zero lengths, radii, ...)
+  c["fill"] = s.chance(1, 3);
   c["noise"] = s.chance(1, 2) ? long(s.range(1, 1 << 30)) : 0L;
   return c;
 }
@@ -650,38 +674,46 @@ check(const json& c)
   // ---- generated text G
   std::vector<std::string> lines = c17::split_lines(t0);
   int changed_lines = 0;
-  // nested object: replace "key := None" by "key := <Name>" followed by <Name>'s default block
-  if (c.contains("nest") && c["nest"].size() == 2)
-    {
-      std::vector<std::size_t> none_lines;
-      for (std::size_t i = 0; i < lines.size(); ++i)
-        {
-          const Line l = split_line(lines[i]);
-          if (l.has_assign && c17::ref_standardise(l.value) == "none")
-            none_lines.push_back(i);
-        }
-      if (!none_lines.empty())
-        {
-          const std::size_t i = none_lines[std::size_t(c["nest"][0].get<int>()) % none_lines.size()];
-          const Line l = split_line(lines[i]);
-          const int ri = guess_registry_for_key(c17::ref_standardise(l.key));
-          if (ri >= 0 && !R[std::size_t(ri)].entries.empty())
-            {
-              Reg& nr = R[std::size_t(ri)];
-              Entry& ne = nr.entries[std::size_t(c["nest"][1].get<int>()) % nr.entries.size()];
-              std::string nwhy;
-              const std::string nt = default_text(nr, ne, nwhy);
-              if (!nt.empty())
-                {
-                  std::vector<std::string> block = c17::split_lines(nt);
-                  lines[i] = l.key + ":= " + ne.name;
-                  lines.insert(lines.begin() + std::ptrdiff_t(i) + 1, block.begin(), block.end());
-                  ++changed_lines;
-                  stats().cls("nested parsing object given a type");
-                }
-            }
-        }
-    }
+  // nested objects: replace "key := None" by "key := <Name>" followed by <Name>'s default block
+  if (c.contains("nest"))
+    for (const auto& ne_j : c["nest"])
+      {
+        std::vector<std::size_t> none_lines;
+        for (std::size_t i = 0; i < lines.size(); ++i)
+          {
+            const Line l = split_line(lines[i]);
+            if (l.has_assign && c17::ref_standardise(l.value) == "none")
+              none_lines.push_back(i);
+          }
+        if (none_lines.empty())
+          break;
+        const std::size_t i = none_lines[std::size_t(ne_j[0].get<int>()) % none_lines.size()];
+        const Line l = split_line(lines[i]);
+        const int ri = guess_registry_for_key(c17::ref_standardise(l.key));
+        if (ri < 0 || R[std::size_t(ri)].entries.empty())
+          continue;
+        Reg& nr = R[std::size_t(ri)];
+        Entry& ne = nr.entries[std::size_t(ne_j[1].get<int>()) % nr.entries.size()];
+        std::string nwhy;
+        const std::string nt = default_text(nr, ne, nwhy);
+        if (nt.empty())
+          continue;
+        std::vector<std::string> block = c17::split_lines(nt);
+        lines[i] = l.key + ":= " + ne.name;
+        lines.insert(lines.begin() + std::ptrdiff_t(i) + 1, block.begin(), block.end());
+        ++changed_lines;
+        stats().cls("nested parsing object given a type");
+      }
+  if (c.value("fill", false))
+    for (std::string& ln : lines)
+      {
+        const Line l = split_line(ln);
+        if (l.has_assign && l.value == "0")
+          {
+            ln = l.key + ":= 1";
+            ++changed_lines;
+          }
+      }
   // candidate lines: "key := value" with a numeric / numeric-list value
   std::vector<std::size_t> cand;
   for (std::size_t i = 0; i < lines.size(); ++i)
@@ -732,7 +764,21 @@ check(const json& c)
   if (!edited)
     {
       // the default object itself: its own text must reproduce it
-      VF_CHECK(t1 == t0, "default object of ", id, " prints\n", t0, "\n--- but after re-parsing that text prints\n", t1);
+      // (compared without blank lines: a default-constructed object may hold a "None"-named default sub-object that
+      //  prints an empty block, which the first parse normalises away; values and keys must be identical)
+      auto squeeze = [](const std::string& t) {
+        std::string o;
+        for (const std::string& l : c17::split_lines(t))
+          {
+            const auto b = l.find_last_not_of(" \t");
+            if (b != std::string::npos)
+              o += l.substr(0, b + 1) + "\n";
+          }
+        return o;
+      };
+      VF_CHECK(squeeze(t1) == squeeze(t0), "default object of ", id, " prints\n", t0, "\n--- but after re-parsing that text prints\n", t1);
+      if (t1 != t0)
+        stats().count("default print differs from re-parsed print by blank lines only: " + id);
     }
   // a third generation must be stable as well (catches drift)
   auto o3 = parse_text(r, name, t2, why);
@@ -803,6 +849,7 @@ enumerate(uint64_t idx, int, json& c)
             if (pass == 1)
               c["edits"].push_back({ int(k * 7 + ri), 0, int(k) });
             c["nest"] = json::array();
+            c["fill"] = false;
             c["noise"] = pass == 1 ? long(1000 + k) : 0L;
             return true;
           }
